@@ -416,6 +416,8 @@ HAND = {
     'sign_chain': '#a: /"a"/x/y <= #b\n#b: /"b"/x <= #c | #d\n#c: /"c"/_\n#d: /"d"/x/_z & {_z: "a"|"b"}\n',
     'sign_alt_defs': '#p: /"p"/x <= #k\n#k: /"k"/x\n#k: /"j"/x/y & {y: x}\n',
     'inherit_add': '#site: /"a"/s\n#u: /#site/r & {r: "b"|"c", s: "a"} <= #site\n',
+    'backtrack_over_bound': '#p: /"d"/site <= #k2\n#k1: /u/site/"a"\n#k2: /u/w/u\n',
+    'backtrack_repeat': '#r1: /a/a\n#r2: /a/b/a\n#r3: /a/b/c & {c: a}\n',
     'blog': ('#site: "a"/"b"\n#root: #site/#KEY\n#article: #site/"c"/cat/yr <= #author\n'
              '#author: #site/role/au/#KEY & { role: "d" } <= #admin\n#admin: #site/"e"/ad/#KEY <= #root\n#KEY: "K"/_/_\n'),
 }
